@@ -34,7 +34,9 @@ REQUIRED = ["reads", "delivered", "cuts_inside_header", "cuts_inside_body",
             "sw_first_read_while_connecting", "sw_over_8192",
             "handshake_prefixes_segmented",
             "ctl_reads_filled_with_header_only_messages",
-            "sw_reads_filled_with_header_only_messages"]
+            "sw_reads_filled_with_header_only_messages",
+            "streams_through_the_listening_loop",
+            "loop_arrivals_that_complete_no_message"]
 TIMEOUT = {"quick": 900, "thorough": 7200}
 
 _cache = {}
@@ -593,6 +595,156 @@ def run_hs (case, rep):
   rep.case(repr(("hs", case["seed"], cuts, pc)).encode(), nontrivial=bool(cuts))
 
 
+# --------------------------------------------------------------------------
+# the controller's own listening loop (OpenFlow_01_Task) in front of read()
+
+_lw = {}
+
+
+def loop_world ():
+  """One World per process: the real OpenFlow_01_Task on a fake listener."""
+  w = _lw.get("w")
+  if w is None:
+    w = simnet.World()
+    w.start_openflow()
+    _lw["w"] = w
+    _lw["got"] = {}
+    nexus = w.core.openflow
+    def rec (kind, f):
+      def h (e):
+        L = _lw["got"].get(e.dpid)
+        if L is not None: L.append((kind,) + f(e))
+      return h
+    nexus.addListenerByName("ConnectionUp", rec("up", lambda e: ()))
+    nexus.addListenerByName("ConnectionDown", rec("down", lambda e: ()))
+    nexus.addListenerByName("PortStatus", rec(
+      "port_status", lambda e: (e.ofp.reason, e.ofp.desc.port_no)))
+    nexus.addListenerByName("PacketIn", rec(
+      "packet_in", lambda e: (e.port, bytes(e.data))))
+    nexus.addListenerByName("FlowRemoved", rec("flow_removed", lambda e: (e.ofp.cookie,)))
+    nexus.addListenerByName("ErrorIn", rec("error", lambda e: (e.xid,)))
+    nexus.addListenerByName("BarrierIn", rec("barrier_reply", lambda e: (e.xid,)))
+  return w
+
+
+def loop_stream (seed):
+  """Messages a switch sends once it is connected, some of them longer than
+  one read of the controller's (2048 octets)."""
+  from pvm import ctl
+  rng = random.Random("c02loop/%s" % seed)
+  out = []
+  for i in range(rng.randrange(1, 9)):
+    k = rng.choice(["packet_in", "packet_in", "packet_in", "port_status",
+                    "flow_removed", "error", "barrier_reply", "big_packet_in"])
+    if k in ("packet_in", "big_packet_in"):
+      n = rng.randrange(0, 60) if k == "packet_in" else rng.choice([2030, 2040, 2100, 4200, 9000])
+      data = bytes([i, 2, 3, 4, 5, 6, 2, 0, 0, 0, 0, 1, 0x88, 0xb5]) + bytes(
+        rng.randrange(256) for _ in range(n))
+      out.append(("packet_in", dict(xid=0, buffer_id=0xffffffff, total_len=len(data),
+                                    in_port=1 + i % 4, reason=0, data=data)))
+    elif k == "port_status":
+      out.append((k, dict(xid=0, reason=rng.choice([0, 2]),
+                          desc=ctl.phy_port(rng.randrange(1, 5), config=rng.choice([0, 1])))))
+    elif k == "flow_removed":
+      m = dict(wildcards=(1 << 22) - 1, in_port=0, dl_src=bytes(6), dl_dst=bytes(6),
+               dl_vlan=0, dl_vlan_pcp=0, dl_type=0, nw_tos=0, nw_proto=0,
+               nw_src=0, nw_dst=0, tp_src=0, tp_dst=0)
+      out.append((k, dict(xid=0, match=m, cookie=100 + i, priority=i, reason=0,
+                          duration_sec=1, duration_nsec=0, idle_timeout=0,
+                          packet_count=i, byte_count=i)))
+    elif k == "error":
+      out.append((k, dict(xid=50 + i, type=1, code=1, data=bytes(8))))
+    else:
+      out.append((k, dict(xid=900 + i)))
+  return out
+
+
+def run_loop (case, rep):
+  """
+  The stream reaches Connection.read() the way it does in a running
+  controller: through the listening task's select loop, which accepts the
+  connection, calls read() when the socket is readable and decides from what
+  read() returns whether to keep the connection.  Every segment is one
+  arrival; a segment that ends inside a message makes a read that completes
+  nothing.  Observed: the events the nexus raises, the socket, the registry.
+  """
+  from pvm import ctl
+  w = loop_world()
+  def fire (key, what):
+    rep.violation("C02 ctl-loop %s" % key, what, case)
+  _lw["n"] = _lw.get("n", 0) + 1
+  dpid = 0x5000 + _lw["n"]
+  got = _lw["got"][dpid] = []
+  c, s = w.connect_switch_socket("L%d" % _lw["n"])
+  w.run()
+  s.rx.clear()
+  late = loop_stream(case["seed"])
+  hello = ofwire.enc_message("hello", dict(xid=0))
+  feat = ofwire.enc_message("features_reply", dict(
+    xid=1, datapath_id=dpid, n_buffers=0, n_tables=1,
+    capabilities=0, actions=0xfff, ports=[ctl.phy_port(n) for n in (1, 2, 3, 4)]))
+  def arrive (seg):
+    s.send(seg); w.run()
+    rep.count("loop_arrivals")
+    return not c.closed
+  pre = hello + feat
+  pc = sorted(set(x for x in case.get("prefix_cuts", []) if 0 < x < len(pre)))
+  for seg in segments(pre, pc):
+    if not arrive(seg):
+      fire("connection closed by valid traffic",
+           "in the handshake prefix (cuts %r of %d octets)" % (pc, len(pre)))
+      return
+  bx = None
+  try:
+    for m in ofwire.dec_stream(bytes(s.rx)):
+      if m["name"] == "barrier_request": bx = m["xid"]
+  except ofwire.WireError:
+    pass
+  s.rx.clear()
+  if bx is None: raise simnet.AdapterError("no barrier request after features reply")
+  msgs = [ofwire.enc_message("barrier_reply", dict(xid=bx))]
+  msgs += [ofwire.enc_message(k, d) for k, d in late]
+  stream = b"".join(msgs)
+  bounds = [0]
+  for m in msgs: bounds.append(bounds[-1] + len(m))
+  cuts = sorted(set(x for x in case["cuts"] if 0 < x < len(stream)))
+  prev = 0
+  for x in cuts + [len(stream)]:
+    # (an arrival that lies wholly inside one message completes nothing)
+    if any(bounds[i] <= prev and x < bounds[i + 1] or bounds[i] < prev and x <= bounds[i + 1]
+           for i in range(len(msgs))) and x - prev < 2048:
+      rep.count("loop_arrivals_that_complete_no_message")
+    if not arrive(stream[prev:x]):
+      fire("connection closed by valid traffic",
+           "after octet %d of %d (cuts %r, message boundaries %r)" %
+           (x, len(stream), cuts[:12], bounds[:12]))
+      return
+    prev = x
+  want = [("up",)]
+  for k, d in late:
+    if k == "port_status": want.append((k, d["reason"], d["desc"]["port_no"]))
+    elif k == "packet_in": want.append((k, d["in_port"], d["data"]))
+    elif k == "flow_removed": want.append((k, d["cookie"]))
+    elif k == "error": want.append((k, d["xid"]))
+    elif k == "barrier_reply": want.append((k, d["xid"]))
+  rep.count("streams_through_the_listening_loop")
+  rep.count("delivered", len(got))
+  if len(stream) > 2048: rep.count("over_2048")
+  if got != want:
+    j = 0
+    while j < min(len(got), len(want)) and got[j] == want[j]: j += 1
+    fire("events differ from the messages sent",
+         "cuts %r: %d events, %d expected; first difference at #%d: got %r expected %r" %
+         (cuts[:12], len(got), len(want), j, got[j][:2] if j < len(got) else None,
+          want[j][:2] if j < len(want) else None))
+  elif dpid not in w.core.openflow.connections:
+    fire("connection not registered after valid traffic", "dpid %x" % dpid)
+  # the switch goes away; the controller notices and lets go of the socket
+  s.close(); w.run()
+  del _lw["got"][dpid]
+  rep.case(repr(("loop", case["seed"], cuts, pc)).encode(), nontrivial=bool(cuts))
+
+
 def gen_cases (spec):
   rng = random.Random("c02/%d/%d" % (spec["seed"], spec["sub"]))
   mode = spec["mode"]
@@ -613,6 +765,19 @@ def gen_cases (spec):
       for _ in range(2):
         yield dict(base, cuts=sorted(rng.randrange(1, L) for _ in range(rng.randrange(0, 3))),
                    prefix_cuts=sorted(rng.randrange(1, P) for _ in range(rng.randrange(1, 4))))
+    return
+  if mode == "loop":
+    for si in range(spec["streams"]):
+      seed = "%d/%d/%d/loop" % (spec["seed"], spec["sub"], si)
+      base = dict(kind="loop", side="ctl", seed=seed)
+      L = 8 + sum(len(ofwire.enc_message(k, d)) for k, d in loop_stream(seed))
+      P = 8 + 32 + 48 * 4
+      yield dict(base, cuts=[])
+      yield dict(base, cuts=list(range(1, L)) if L < 400 else list(range(3, L, 61)))
+      yield dict(base, cuts=list(range(2048, L, 2048)))
+      for _ in range(spec.get("rand", 6)):
+        yield dict(base, cuts=sorted(rng.randrange(1, L) for _ in range(rng.randrange(1, 6))),
+                   prefix_cuts=sorted(rng.randrange(1, P) for _ in range(rng.randrange(0, 3))))
     return
   if mode == "multi":
     for si in range(spec["streams"]):
@@ -710,6 +875,7 @@ def plan (tier, seed):
     sp += [dict(mode="huge", streams=6, sub=i, rand=3) for i in range(2)]
     sp += [dict(mode="multi", streams=400, sub=i) for i in range(2)]
     sp += [dict(mode="tiny", streams=12, sub=i) for i in range(2)]
+    sp += [dict(mode="loop", streams=60, sub=i, rand=6) for i in range(2)]
     return sp
   sp = [dict(mode="cut1", streams=150, sub=i) for i in range(16)]
   sp += [dict(mode="cut2", streams=400, sub=i, maxlen=140) for i in range(16)]
@@ -720,10 +886,21 @@ def plan (tier, seed):
   sp += [dict(mode="huge", streams=150, sub=i, rand=10) for i in range(8)]
   sp += [dict(mode="multi", streams=20000, sub=i) for i in range(8)]
   sp += [dict(mode="tiny", streams=300, sub=i) for i in range(4)]
+  sp += [dict(mode="loop", streams=3000, sub=i, rand=10) for i in range(8)]
   return sp
 
 
 def run (spec, rep):
+  if spec["mode"] == "loop":
+    # (its own process: the World brings its own core)
+    for case in gen_cases(spec):
+      try:
+        run_loop(case, rep)
+      except simnet.AdapterError:
+        raise
+      except Exception:
+        rep.violation("C02 harness-visible exception", traceback.format_exc()[-900:], case)
+    return
   boot()
   first = True
   n = 0
@@ -759,6 +936,8 @@ def run (spec, rep):
 
 
 def replay (witness, rep):
+  if witness.get("kind") == "loop":
+    run_loop(witness, rep); return
   boot()
   if witness.get("kind") == "hs": run_hs(witness, rep)
   elif witness.get("kind") == "multi": run_multi(witness, rep)
